@@ -40,6 +40,12 @@ __CPROVER_ensures((__CPROVER_same_object(input, g_gp_base) && __CPROVER_POINTER_
 
 #include "src/secp256k1.c"
 #include "post.h"
+/* verif.h's INPUT_BUF allocates 1 byte for len == 0; exact objects also for the empty input: */
+#ifndef VERIF_NATIVE
+# define INPUT_BUF_EXACT(name, ptr, len, N) do { ptr = malloc(len); __CPROVER_assume(ptr != NULL); } while (0)
+#else
+# define INPUT_BUF_EXACT(name, ptr, len, N) INPUT_BUF(name, ptr, len, N)
+#endif
 
 #ifndef NMAX
 # define NMAX  ((size_t)1 << 20)          /* 2^20 generators */
@@ -53,7 +59,7 @@ void h_gens_parse(void) {
     unsigned char *data; secp256k1_bppp_generators *g; size_t n_out = 0;
     verif_ctx_init(&ctx);
     __CPROVER_assume(len <= MAXLEN);
-    INPUT_BUF(buf, data, len, 66);
+    INPUT_BUF_EXACT(buf, data, len, 66);
     g = secp256k1_bppp_generators_parse(&ctx, use_data ? data : NULL, len);
     WITNESS_BUF(buf, data, len, 66);
 #ifdef GENS_OOM
@@ -90,7 +96,7 @@ void h_gens_parse(void) {
 static void gens_parse_case(size_t len, size_t j) {
     secp256k1_context ctx; unsigned char *data; secp256k1_bppp_generators *g;
     verif_ctx_init(&ctx);
-    data = malloc(len ? len : 1); __CPROVER_assume(data != NULL);
+    data = malloc(len); __CPROVER_assume(data != NULL);                 /* exactly len bytes, also for len = 0 */
     g_gp_n = 0; g_gp_fail = 0; g_gp_hit = 0; g_gp_hv = 0; g_gp_base = data; g_gp_j = j;
     g = secp256k1_bppp_generators_parse(&ctx, data, len);
     __CPROVER_assert(g_error == 0 && g_illegal == 0, "C19 generators_parse (n<=4): no callback");
@@ -131,7 +137,7 @@ void h_gens_serialize(void) {
     __CPROVER_assume(n <= NMAX && len <= MAXLEN + 64);
     gs.n = n;
     gs.gens = malloc(n * sizeof(secp256k1_ge));             /* contents arbitrary; typed so that the verifier sees an array of group elements */
-    data = malloc(len ? len : 1);                           /* exactly *data_len bytes */
+    data = malloc(len);                                     /* exactly *data_len bytes (also for 0) */
     __CPROVER_assume(gs.gens != NULL && data != NULL);
     ret = secp256k1_bppp_generators_serialize(&ctx, use_g ? &gs : NULL, use_data ? data : NULL, use_len ? &len_io : NULL);
     __CPROVER_assert(ret == 0 || ret == 1, "C19 generators_serialize: returns 0 or 1");
